@@ -13,6 +13,7 @@ import ast
 import re
 
 from .. import effects as E
+from .. import defuse as D
 from ..index import AnalysisError, call_name, norm, params_of, walk_no_nested
 from ..literals import all_strings, regex_literal_chars
 from ..report import key
@@ -247,7 +248,71 @@ def r09_5(chk):
     chk.floor("R09.5", 1, "one modification site")
 
 
+def _collapse_accounting(fn):
+    """for unrooted(): (loop var over self.children, names derived from <loopvar>.children [promoted],
+    length stores on promoted values, names carrying <loopvar>.length, length updates that add it elsewhere)"""
+    loops = [f for f in walk_no_nested(fn) if isinstance(f, ast.For) and norm(f.iter) == "self.children" and isinstance(f.target, ast.Name)]
+    if not loops:
+        return None
+    old = loops[0].target.id
+    promoted = set()
+    removed = set()
+    changed = True
+    binds = [(tg, v) for tg, v, _ in D.assignments(fn)]
+    # comprehension targets bind too
+    for c in ast.walk(fn):
+        if isinstance(c, ast.comprehension):
+            binds.append(([c.target], c.iter))
+    while changed:
+        changed = False
+        for tg, v in binds:
+            is_prom = any(norm(n) == f"{old}.children" for n in ast.walk(v)) or bool(D.names_in(v) & promoted)
+            is_rem = any(norm(n) == f"{old}.length" for n in ast.walk(v)) or (bool(D.names_in(v) & removed) and not is_prom)
+            for t in tg:
+                for nm in ast.walk(t):
+                    if isinstance(nm, ast.Name):
+                        if is_prom and nm.id not in promoted:
+                            promoted.add(nm.id)
+                            changed = True
+                        if is_rem and nm.id not in removed and nm.id not in promoted:
+                            removed.add(nm.id)
+                            changed = True
+    stores = []
+    for st in walk_no_nested(fn):
+        tgt = None
+        if isinstance(st, ast.AugAssign):
+            tgt, val = st.target, st.value
+        elif isinstance(st, ast.Assign) and len(st.targets) == 1:
+            tgt, val = st.targets[0], st.value
+        if tgt is not None and isinstance(tgt, ast.Attribute) and tgt.attr == "length":
+            base = D.names_in(tgt.value)
+            carries = any(norm(n) == f"{old}.length" for n in ast.walk(val)) or bool(D.names_in(val) & removed)
+            stores.append((st, bool(base & promoted), carries))
+    return old, promoted, removed, stores
+
+
+def r09_6(chk):
+    chk.rule("R09.6", "unrooted() removes one edge below the root (the first internal child is dissolved, its children are promoted): the promoted nodes keep their own lengths (paths between them never crossed the removed edge) and the removed length is added to the node(s) kept on the other side -- so every tip-to-tip path keeps its length")
+    m = chk.repo.module(TREE)
+    fn = m.func("TreeNode.unrooted")
+    r = _collapse_accounting(fn)
+    if r is None:
+        raise AnalysisError("TreeNode.unrooted: loop over self.children not found")
+    old, promoted, removed, stores = r
+    if not promoted:
+        raise AnalysisError("TreeNode.unrooted: promoted children not identified")
+    bad = [st for st, on_prom, _ in stores if on_prom]
+    for st in bad:
+        chk.violation("R09.6", key(m, "TreeNode.unrooted", "promoted nodes keep their lengths"), m.loc(st), f"`{norm(st)}` changes the length of a promoted child of the dissolved node: the path between two promoted siblings never crossed the removed edge, yet grows by twice its length (((a:1,b:2)ab:3,c:4) gives a-b = 9 instead of 3)")
+    if not bad:
+        chk.ok("R09.6", key(m, "TreeNode.unrooted", "promoted nodes keep their lengths"), m.loc(fn), f"no length store on values derived from {old}.children")
+    moved = [st for st, on_prom, carries in stores if carries and not on_prom]
+    chk.decide(bool(moved), "R09.6", key(m, "TreeNode.unrooted", "removed length re-attached on the other side"), m.loc(moved[0]) if moved else m.loc(fn), f"`{norm(moved[0])[:60]}` adds {old}.length to a kept node" if moved else "", f"the length of the dissolved node ({old}.length) is not added to any kept node: paths from the promoted nodes to the rest of the tree lose it")
+    chk.floor("R09.6", 2, "two accounting obligations")
+
+
 def run(chk):
+    r09_6(chk)
     r09_1(chk)
     r09_2(chk)
     r09_4(chk)
